@@ -596,3 +596,5 @@ RULES.append(("C11.STEP", "the command a step executes is the language's command
 RULES.append(("C11.JUMP", "a step follows the language's jump rules: area evaluation, label lookup/registration and ♡ return of execute_one (shared with C01.JUMP)", p_c01.rule_area_jump))
 
 RULES.append(("C11.INIT", "the state a session starts from (and `clear` returns to): empty, stack 3 selected, no jump source (shared with C01.INIT)", p_c01.rule_init))
+
+RULES.append(("C11.STATEAPI", "the accessors of the state (selected stack, jump source, label table, command log) read and write exactly their field (shared with C01.STATEAPI)", p_c01.rule_stateapi))
